@@ -220,7 +220,7 @@ func TestC06(t *testing.T) {
 	rec.Require("model:has-cycle", 0.15)
 	rec.Require("lib:accepted", 0.10)
 	rapid.Check(t, func(rt *rapid.T) {
-		m := gen.GraphModel(rt, gen.GraphOpts{MultiThis: true, DupRestr: true, Hazards: rapid.IntRange(0, 3).Draw(rt, "hz") == 0, CycleBoost: rapid.Bool().Draw(rt, "cb")})
+		m := gen.GraphModel(rt, gen.GraphOpts{MultiThis: true, DupRestr: true, Hazards: rapid.IntRange(0, 7).Draw(rt, "hz") == 0, CycleBoost: rapid.IntRange(0, 4).Draw(rt, "cb") == 0})
 		in := c06Input{Model: m}
 		g0 := ref.Build(m)
 		if g0.Err == "" {
